@@ -107,11 +107,19 @@ def case_strategy(draw):
                                  "copy"]))
     expr = tree(draw(st.integers(1, 2)), True)
     case = {"decls": decls, "regs": regs, "mode": mode}
+    ordered = None
+    if mode != "cmp" and draw(st.integers(0, 4)) == 0:
+        # the destination is an integer variable with an explicit byte order
+        ordered = ["var", "vo"]
+        decls.append({"name": "vo",
+                      "kind": draw(st.sampled_from(["local", "map", "pkt"])),
+                      "fmt": draw(st.sampled_from("<>!"))
+                      + draw(st.sampled_from("HIQhiq"))})
     if mode == "assign":
-        case["dst"] = leaf()
+        case["dst"] = ordered or leaf()
         case["expr"] = expr
     elif mode == "copy":
-        case["dst"] = leaf()
+        case["dst"] = ordered or leaf()
         case["expr"] = draw(st.one_of(st.builds(lambda: leaf()),
                                       st.builds(lambda: const())))
     else:
@@ -520,6 +528,10 @@ def run_case(case):
             mask = (1 << (8 * size)) - 1
             got = out[name] & mask
             want = {int(v * BASE if dfix else v) & mask for v in exp}
+            if len(dfmt) > 1:
+                # explicit byte order: the bytes struct.pack stores
+                want = {dsl.encode_raw(w, dfmt) for w in want}
+                classes.append("byte-ordered-destination")
             if got not in want:
                 return dict(
                     ok=False, nontrivial=True, classes=classes, key=key,
